@@ -110,9 +110,94 @@ func Curated() []*Grammar {
 		{Name: "P->many(Q)b;Q->a|ax", Rules: []*G{S(M(N(1)), b), A(a, S(a, x))}, Finite: true, LRFree: true},
 		{Name: "P->seqtry(a,P)|b", Rules: []*G{A(ST(a, N(0)), b)}, Finite: true, LRFree: true, Recursive: true},
 		{Name: "R->Qb|Qx;Q->aa", Rules: []*G{A(S(N(1), b), S(N(1), x)), S(a, a)}, Finite: true, LRFree: true},
+		{Name: "a(bx)?b", Rules: []*G{S(a, O(S(b, x)), b)}, Finite: true, LRFree: true},
+		{Name: "sepby1(a(bx)?,nl)", Rules: []*G{SB1(S(a, O(S(b, x))), nl)}, Finite: true, LRFree: true},
+		{Name: "R->(M|x)b|(M|b)x|(M|a)a;M->a|aa|aaa", Rules: []*G{A(S(A(N(1), x), b), S(A(N(1), b), x), S(A(N(1), a), a)), A(a, S(a, a), S(a, a, a))}, Finite: true, LRFree: true},
+		{Name: "X->Yb;Y->Ya|b|X", Rules: []*G{S(N(1), b), A(S(N(1), a), b, N(0))}, Finite: true, Recursive: true},
+		{Name: "R->M|((M|a+)|(M|a+b));M->a|ab|abx", Rules: []*G{A(N(1), A(A(N(1), M1(a)), A(N(1), S(M1(a), b)))), A(a, S(a, b), S(a, b, x))}, Finite: true, LRFree: true},
+		{Name: "R->(M|x)|(M|a+)|(M|a+b);M->a|ab|abx", Rules: []*G{A(A(N(1), x), A(N(1), M1(a)), A(N(1), S(M1(a), b))), A(a, S(a, b), S(a, b, x))}, Finite: true, LRFree: true},
 		{Name: "(a|nl)*b", Rules: []*G{S(M(A(a, nl)), b)}, Finite: true, LRFree: true},
 		{Name: "L->L nl a|a", Rules: []*G{A(S(N(0), nl, a), a)}, Finite: true, Recursive: true},
 	})
+}
+
+// Systematic builds the k-th sampled grammar of the generated part of the
+// family: two memoized nonterminals, each a union (Any) of 1..3 alternatives,
+// each alternative a sequence of 1..3 symbols from {a, b, N0, N1}. The sample
+// is drawn by a fixed pseudo-random sequence from the seed, so every run with
+// the same seed checks the same grammars and different seeds check others.
+// No empty alternatives: every tree is finite and every grammar has finitely
+// many trees per input; no unit alternatives, at most two nonterminals per
+// alternative (otherwise result sets explode with duplicates).
+func Systematic(seed, k int) *Grammar {
+	state := uint64(seed)*0x9E3779B97F4A7C15 + uint64(k)*0xBF58476D1CE4E5B9 + 0x94D049BB133111EB
+	next := func(n int) int {
+		state ^= state >> 30
+		state *= 0xBF58476D1CE4E5B9
+		state ^= state >> 27
+		state *= 0x94D049BB133111EB
+		state ^= state >> 31
+		return int(state % uint64(n))
+	}
+	name := ""
+	sym := func() (*G, string) {
+		switch next(4) {
+		case 0:
+			return T('a'), "a"
+		case 1:
+			return T('b'), "b"
+		case 2:
+			return N(0), "P"
+		}
+		return N(1), "Q"
+	}
+	rules := make([]*G, 2)
+	for r := range rules {
+		if r == 0 {
+			name += "P->"
+		} else {
+			name += ";Q->"
+		}
+		nalt := 1 + next(3)
+		var alts []*G
+		for i := 0; i < nalt; i++ {
+			if i > 0 {
+				name += "|"
+			}
+			l := 1 + next(3)
+			var seq []*G
+			nts := 0
+			for j := 0; j < l; j++ {
+				g, n := sym()
+				// no unit alternatives (cycles of unit rules multiply duplicates
+				// without adding trees) and at most two nonterminals per alternative
+				for g.K == KNT && (l == 1 || nts >= 2) {
+					g, n = sym()
+				}
+				if g.K == KNT {
+					nts++
+				}
+				seq = append(seq, g)
+				name += n
+			}
+			if l == 1 {
+				alts = append(alts, seq[0])
+			} else {
+				alts = append(alts, S(seq...))
+			}
+		}
+		// a terminal alternative so that the nonterminal derives something
+		if next(4) != 0 {
+			g, n := sym()
+			for g.K == KNT {
+				g, n = sym()
+			}
+			alts = append(alts, g)
+			name += "|" + n
+		}
+		rules[r] = A(alts...)
+	}
+	return &Grammar{Name: name, Rules: rules, Finite: true, Recursive: true, MaxN: 4}
 }
 
 // uniq gives every occurrence of a sub-expression its own node, so that
@@ -142,6 +227,10 @@ func Sharing() []*Grammar {
 		{Name: "R->(M|x)b|(M|b)x;M->a|aa|aaa", Rules: []*G{A(S(A(N(1), x), b), S(A(N(1), b), x)), m3}, Finite: true},
 		{Name: "R->M?b|Mx;M->a|aa|aaa", Rules: []*G{A(S(O(N(1)), b), S(N(1), x)), m3}, Finite: true},
 		{Name: "R->(M|x)(M|b);M->a|aa", Rules: []*G{S(A(N(1), x), A(N(1), b)), A(a, S(a, a))}, Finite: true},
+		{Name: "R->(M|x)b|(M|b)x|(M|a)a;M->a|aa|aaa", Rules: []*G{A(S(A(N(1), x), b), S(A(N(1), b), x), S(A(N(1), a), a)), m3}, Finite: true},
+		{Name: "R->M?b|M?x|M?a;M->a|aa|aaa", Rules: []*G{A(S(O(N(1)), b), S(O(N(1)), x), S(O(N(1)), a)), m3}, Finite: true},
+		{Name: "R->M|((M|a+)|(M|a+b));M->a|ab|abx", Rules: []*G{A(N(1), A(A(N(1), M1(a)), A(N(1), S(M1(a), b)))), A(a, S(a, b), S(a, b, x))}, Finite: true},
+		{Name: "R->(M|x)|(M|a+)|(M|a+b);M->a|ab|abx", Rules: []*G{A(A(N(1), x), A(N(1), M1(a)), A(N(1), S(M1(a), b))), A(a, S(a, b), S(a, b, x))}, Finite: true},
 		{Name: "R->rtrim(M)b|Mx;M->a", Rules: []*G{A(S(RT(N(1)), b), S(N(1), x)), a}, Finite: true},
 		{Name: "R->rtrim(M)b|Mx;M->a|aa", Rules: []*G{A(S(RT(N(1)), b), S(N(1), x)), A(a, S(a, a))}, Finite: true},
 		{Name: "R->Mx|rtrim(M)b;M->a", Rules: []*G{A(S(N(1), x), S(RT(N(1)), b)), a}, Finite: true},
